@@ -154,14 +154,15 @@ struct LeafBase
     {
         return leaf_dealloc(ID, "try_dealloc", p, {false, 1, size, align}, true);
     }
-    // small on purpose: user requests lie on both sides of it (the leaves themselves do not enforce it)
+    // small on purpose: user requests lie on both sides of it (the leaves themselves do not enforce it); different per leaf so
+    // that the figures a composition reports (C18, `cmp maxima`) say which part they come from (Lean: `harnessLeafMaxima`)
     std::size_t max_node_size() const noexcept
     {
-        return 48;
+        return 48 + 16 * ID;
     }
     std::size_t max_alignment() const noexcept
     {
-        return 4096;
+        return std::size_t(4096) >> ID;
     }
 };
 template <int ID>
@@ -192,7 +193,7 @@ struct Leaf<ID, true> : LeafBase<ID>
     }
     std::size_t max_array_size() const noexcept
     {
-        return 200000;
+        return 200000 + 1000 * ID;
     }
 };
 
@@ -298,6 +299,10 @@ static void drive(C& c, const char* expr, Rng& g, long nops)
 {
     using Tr = allocator_traits<C>;
     std::printf("cmpexpr %s\n", expr);
+    // C18: the maxima the composition reports through allocator_traits (fallback: the larger figure of its parts; wrappers and
+    // storages forward; leaves without array members: the traits' defaults)
+    begin_op();
+    emit("cmp maxima", fmt("node=%zu array=%zu align=%zu", Tr::max_node_size(c), Tr::max_array_size(c), Tr::max_alignment(c)));
     LS[0] = LeafState{};
     LS[1] = LeafState{};
     LS[2] = LeafState{};
@@ -581,6 +586,30 @@ static void d24_case()
     TRACK_ORACLE = true;
 }
 
+// D35 (recorded finding, C18): binary_segregator reports its fallback's max_node_size() only; a request above that figure which
+// the segregatable part accepts succeeds. Library allocators on both sides (they do enforce their own figures).
+static void d35_case()
+{
+    auto seg = make_segregator(threshold(1024u, memory_stack<>(8192)), memory_pool<>(64, 4096));
+    using Tr = allocator_traits<decltype(seg)>;
+    std::size_t mx = Tr::max_node_size(seg);
+    void*       p = nullptr;
+    try
+    {
+        p = Tr::allocate_node(seg, mx + 36, 8);
+    }
+    catch (std::exception&)
+    {
+    }
+    if (p)
+    {
+        fail(fmt("known-D35 binary_segregator<threshold 1024 over memory_stack, memory_pool(64)>: max_node_size() = %zu, allocate_node(%zu, 8) "
+                 "succeeded",
+                 mx, mx + 36));
+        Tr::deallocate_node(seg, p, mx + 36, 8);
+    }
+}
+
 // block-level tracking (tracked_block_allocator / deeply_tracked_allocator): growth and shrinking events against the
 // calls that reach the upstream allocator -- every successful block operation is seen exactly once, with its address and size
 struct BlkEvent
@@ -819,6 +848,7 @@ int main(int argc, char** argv)
     mra_cases<L0a>("L 0 a", g);
     mra_cases<L0n>("L 0 n", g);
     d24_case();
+    d35_case();
     block_tracking_case(g, thorough);
     for (auto& f : failures)
         std::printf("oracle-fail %s\n", f.c_str());
